@@ -270,6 +270,22 @@ def _pyint_polymod(values):
     return chk
 
 
+def _nonzero_padding_with_valid_checksum(rng, hrp=None):
+    """a 32-byte program whose last 5-bit group carries NON-ZERO padding bits, under a correct checksum: BIP173 refuses
+    it ("any padding must be zero"); a regrouping that simply drops the surplus bits accepts it"""
+    hrp = hrp or rng.choice(['bc', 'tb', 'bcrt'])
+    ver = rng.choice([0, 0, 1, 16])
+    prog = _rnd(rng, 32 if ver == 0 else rng.choice([32, 7, 12, 17, 22, 27, 37]))       # lengths with 8n % 5 != 0
+    bits = ''.join('{:08b}'.format(b) for b in prog)
+    padn = (-len(bits)) % 5
+    bits += ''.join(rng.choice('01') for _ in range(padn - 1)) + '1' if padn else ''
+    data = [ver] + [int(bits[k:k + 5], 2) for k in range(0, len(bits), 5)]
+    exp = [ord(c) >> 5 for c in hrp] + [0] + [ord(c) & 31 for c in hrp]
+    pm = _pyint_polymod(exp + data + [0] * 6) ^ 1
+    chk = [(pm >> 5 * (5 - i)) & 31 for i in range(6)]
+    return hrp, hrp + '1' + ''.join(_B32[v] for v in data + chk)
+
+
 def _foreign_with_solved_checksum(rng):
     """an address in which one data character is NOT in the Bech32 alphabet and whose last six characters are chosen so
     that a checksum computation fed with the failed lookup (-1) still comes out right: BIP173 refuses it for the
@@ -317,8 +333,10 @@ def _single_subst(rng):
 
 def _gen_decode(rng):
     r = rng.random()
-    if r < 0.06:
+    if r < 0.04:
         hrp, a = _foreign_with_solved_checksum(rng)
+    elif r < 0.08:
+        hrp, a = _nonzero_padding_with_valid_checksum(rng)
     elif r < 0.15:
         hrp, a = _valid(rng)
     elif r < 0.55:
